@@ -22,6 +22,7 @@
 -/
 import ParsleyVerif.Proofs.RunPos
 import ParsleyVerif.Proofs.RunMono
+import ParsleyVerif.Proofs.FactsTie
 namespace PV
 open PV.Text
 
@@ -73,6 +74,14 @@ def bodyDepths : List Ev → List (Nat × Nat)
 
 example : ((run nv2Cfg 40 (.ref 0) [] 1 {}).map (fun r => bodyDepths r.2.log)) = some [(1, 5), (1, 4), (1, 3), (1, 2), (1, 1)] := by
   decide
+
+/-- the curtailment test, the context-reset test and Remaining, TRANSLATED from the Go source on every run, are the
+    model's (Generated/FactsFn.lean, Proofs/FactsTie.lean) -/
+theorem c02_translated_conditions :
+    (∀ cnt rem, decide (cnt > rem + Facts.curtailSlack) = FactsFn.curtails cnt rem) ∧
+    (∀ p (n : Node), decide (n.rpos > p) = FactsFn.seqResets n.rpos p) ∧
+    (∀ f pos, remaining f pos = FactsFn.remaining f.len pos f.offset) :=
+  ⟨tie_curtails, tie_seqResets, tie_remaining⟩
 
 theorem c02_facts :
     Facts.curtailCond = "leftRecCtx.Get(parserIndex)>ctx.Reader().Remaining(pos)+1" ∧
